@@ -91,3 +91,5 @@ func freshClient(adapter string, specs ...adapt.TableSpec) (adapt.Client, *model
 	}
 	return cl, m, nil
 }
+
+var rrCanon = refmodelRenderCanon()
